@@ -1,6 +1,7 @@
 //! vharness: runtime-monitoring harness for muxide (see /verif/DESIGN.md).
 pub mod bmff;
 pub mod exec;
+pub mod fuzzdec;
 pub mod gen;
 pub mod hist;
 pub mod model;
